@@ -372,6 +372,11 @@ func runC06(c *CaseCtx) (res CaseResult) {
 	}
 	denseCases = c.Tier == "thorough"
 	s, fam := pickGeneralMix(r)
+	if c.Idx%8 == 5 {
+		// value names that are not Go identifiers (legal in a struct tag)
+		s = oddNames(s)
+		res.obs("odd_name_cases", 1)
+	}
 	res.Key = s.Key()
 	res.NonTrivial = len(s.Convs) >= 2 || strings.HasPrefix(fam, "hostile")
 	res.obs("family."+fam, 1)
@@ -455,8 +460,8 @@ func runC06(c *CaseCtx) (res CaseResult) {
 // runC06Malformed: malformed options must be ignored or reported, never panic.
 func runC06Malformed(c *CaseCtx, r *rand.Rand) (res CaseResult) {
 	s, _ := genExact(r, r.Intn(2) == 0)
-	kind := r.Intn(9)
-	kinds := []string{"nil-option", "named-nil", "typed-nil", "converterfunc-nil", "converter-42", "converter-nil", "gen-error", "gen-nil-nil", "newfunc-nonfunc"}
+	kind := r.Intn(11)
+	kinds := []string{"nil-option", "named-nil", "typed-nil", "converterfunc-nil", "converter-42", "converter-nil", "gen-error", "gen-nil-nil", "newfunc-nonfunc", "gen-nil-func", "logger-nil"}
 	res.Key = kinds[kind] + " " + s.Key()
 	res.NonTrivial = true
 	res.obs("malformed_cases", 1)
@@ -484,6 +489,10 @@ func runC06Malformed(c *CaseCtx, r *rand.Rand) (res CaseResult) {
 		bad, wantErr = am.Converter(nil), true
 	case 6:
 		bad, wantErr = am.ConverterGen(func(am.Value) (*am.Func, error) { return nil, genErr }), true
+	case 9:
+		bad = am.ConverterGen(nil, nil)
+	case 10:
+		bad = am.Logger(nil)
 	case 7:
 		bad = am.ConverterGen(func(am.Value) (*am.Func, error) { return nil, nil })
 	case 8:
